@@ -339,7 +339,7 @@ def _complex_sesq():
         m, V = space("triangle", "P", 1)
         u, v = TrialFunction(V), TestFunction(V)
         f = Coefficient(V)
-        return [f * inner(grad(u), grad(v)) * dx + ufl.conj(f) * ufl.real(f) * u * ufl.conj(v) * dx]
+        return [f * inner(grad(u), grad(v)) * dx + ufl.conj(f) * ufl.real(f) * inner(u, v) * dx]
     return b
 
 
@@ -383,6 +383,37 @@ def fixed():
         E("geometry_tri", _geometry_quantities("triangle"), tags=("cell", "facet", "geometry")),
         E("geometry_tet", _geometry_quantities("tetrahedron"), tags=("cell", "facet", "geometry")),
     ]
+
+
+def complex_forms():
+    """Forms that only make sense (or differ) in complex mode."""
+    E = Entry
+    return [E("complex_sesq", _complex_sesq(), tags=("cell", "complex")),
+            E("complex_helmholtz", _complex_helmholtz(), tags=("cell", "facet", "complex")),
+            E("complex_rhs_facets", _complex_rhs_facets(), tags=("cell", "facet", "interior", "complex"))]
+
+
+def _complex_rhs_facets():
+    def b():
+        m, V = space("triangle", "P", 1)
+        v = TestFunction(V)
+        f = Coefficient(V)
+        g = Coefficient(V)
+        n = FacetNormal(m)
+        return [inner(f * g, v) * dx + inner(ufl.conj(f) * g, v) * ds + inner(jump(f), avg(v)) * dS
+                + inner(dot(grad(f), n), v) * ds]
+    return b
+
+
+def _complex_helmholtz():
+    def b():
+        m, V = space("triangle", "P", 2)
+        u, v = TrialFunction(V), TestFunction(V)
+        k = Constant(m)
+        f = Coefficient(V)
+        return [inner(grad(u), grad(v)) * dx - k * k * inner(u, v) * dx + 1j * k * inner(u, v) * ds
+                + inner(f, v) * dx + ufl.imag(f) * ufl.real(k) * inner(u, v) * dx]
+    return b
 
 
 # ----------------------------------------------------------------------- expressions
